@@ -125,3 +125,11 @@ Lemma buffered_10_example :
   g_hdr_err s = false /\ g_out_err s = false /\ g_early_fin s = false /\
   delimited q_get10ka s = true /\ c_closed s = false /\ sent_keep_alive s = true.
 Proof. vm_compute. repeat split. Qed.
+
+(* an abort by the Content-Length guard closes a connection whose header block (without
+   Connection: close) has already left: the handler declared 5 bytes, wrote 1 and finished *)
+Lemma abort_unannounced :
+  let s := run env0 q_get11 [SetH (b "Content-Length") (b "5"); Write (b "x"); Flush] in
+  g_hdr_err s = false /\ g_early_fin s = false /\ g_out_err s = true /\
+  o_head s <> None /\ c_closed s = true /\ sent_close s = false.
+Proof. vm_compute. repeat split. discriminate. Qed.
